@@ -33,4 +33,23 @@ def WFFrom (hold : Nat → Option Nat) : List Ev → Prop
   | .rel t m :: r => hold m = some t ∧ WFFrom (fun x => if x = m then none else hold x) r
   | .acc _ _ _ :: r => WFFrom hold r
 
+/-! ### several data stores at once: the gate lock (`multiDataStoreLock`)
+
+A thread of the emulator holds data store locks and may be waiting for one more. The discipline of the code
+(after D89 / D91): whoever waits for a data store while holding another one holds the gate lock
+(`multiDataStoreLock`: FLUSHALL, EXEC with a queued FLUSHALL or SELECT), and the gate lock has one holder. -/
+
+structure LockTh where
+  held : List Nat            -- the data stores it has locked
+  waits : Option Nat         -- the data store it is waiting for
+  gate : Bool                -- holds the gate lock
+  deriving Repr, DecidableEq
+
+/-- `a` waits for a data store that `b` holds -/
+def LockTh.waitsFor (a b : LockTh) : Prop := ∃ r, a.waits = some r ∧ r ∈ b.held
+
+structure GateDiscipline (ts : List LockTh) : Prop where
+  holdAndWait : ∀ t ∈ ts, t.waits.isSome = true → t.held ≠ [] → t.gate = true
+  oneGate : ts.Pairwise fun a b => ¬ (a.gate = true ∧ b.gate = true)
+
 end RedisEmu
